@@ -125,6 +125,8 @@ func Choice(name string, n int) int {
 
 type assumeFailed struct{}
 
+func (assumeFailed) Error() string { return "assumeFailed: the run left the region the harness assumes" }
+
 // Assume: natively an assumption that does not hold means the replay left the recorded path.
 func Assume(c bool) {
 	if !c {
